@@ -400,8 +400,42 @@ fn hub_sync_case(case: &Value, base: &Path) -> Value {
     Value::Object(out)
 }
 
+/// root_pair_hash on probe pairs that must all get different ids (non-UTF-8 names, swapped order, shifted boundary)
+fn pair_hash_case(base: &Path) -> Value {
+    use std::os::unix::ffi::OsStrExt;
+    let world = base.join("pworld");
+    let _ = std::fs::remove_dir_all(&world);
+    std::fs::create_dir_all(&world).unwrap();
+    let mk = |name: &[u8]| -> PathBuf {
+        let p = world.join(std::ffi::OsStr::from_bytes(name));
+        std::fs::create_dir_all(&p).unwrap();
+        p
+    };
+    let pairs: Vec<(PathBuf, PathBuf)> = vec![
+        (mk(b"docs-\xe9-a"), mk(b"docs-\xe9-b")),
+        (mk(b"docs-\xe8-a"), mk(b"docs-\xe8-b")),
+        (mk(b"x"), mk(b"y")),
+        (mk(b"xy"), mk(b"z")),
+        (mk(b"x"), mk(b"yz")),
+        (world.join("missing-1"), world.join("missing-2")),
+        (world.join("missing-\u{e9}"), world.join("missing-2")),
+    ];
+    let ids: Vec<String> = pairs.iter().map(|(a, b)| archive::root_pair_hash(a, b)).collect();
+    let mut collisions = Vec::new();
+    for i in 0..ids.len() {
+        for j in i + 1..ids.len() {
+            if ids[i] == ids[j] {
+                collisions.push(json!([pairs[i].0.to_string_lossy(), pairs[j].0.to_string_lossy()]));
+            }
+        }
+    }
+    let order_sensitive = archive::root_pair_hash(&pairs[2].0, &pairs[2].1) != archive::root_pair_hash(&pairs[2].1, &pairs[2].0);
+    json!({"collisions": collisions, "order_sensitive": order_sensitive, "ids": ids.len()})
+}
+
 fn run_case(case: &Value, base: &Path) -> Value {
     match case["fn"].as_str().unwrap_or("") {
+        "pair_hash" => pair_hash_case(base),
         "hub_sync" => hub_sync_case(case, base),
         "bisync_apply" => bisync_apply(case, base),
         "bisync_history" => bisync_history(case, base),
